@@ -187,4 +187,23 @@ Section Vec.
       - now rewrite nth_overflow. }
     destruct Htm; subst tm; specialize (H r Hr); lia.
   Qed.
+
+  (* with a residue table: at most the listed widths of the listed registers stay dirty *)
+  Theorem residue_check_sound : forall f res,
+    check_c14r claims res f = true ->
+    forall c tm c', (forall r, c r = 0) ->
+    run vconc vbstep (cfg_of f) 1%positive c tm c' ->
+    (tm = TRet \/ tm = TTailInd) -> forall r, r < 32 -> c' r <= nth r res 0.
+  Proof.
+    intros f res Hchk c tm c' Hc Hrun Htm r Hr. unfold check_c14r in Hchk.
+    apply andb_true_iff in Hchk. destruct Hchk as [Hcl Hv].
+    pose proof (vclaim_sound f Hv c tm c' Hc Hrun) as H.
+    unfold v_within in Hcl. rewrite forallb_forall in Hcl.
+    assert (In r regs32) by (apply in_seq; lia). specialize (Hcl r H0). apply Nat.leb_le in Hcl.
+    assert (nth r (cl_vd (claims (fid f))) 0 <= getv (cl_vd (claims (fid f))) r).
+    { unfold getv. destruct (Nat.lt_ge_cases r (length (cl_vd (claims (fid f))))).
+      - rewrite (nth_indep _ 0 3); auto.
+      - rewrite !nth_overflow by auto. lia. }
+    destruct Htm; subst tm; specialize (H r Hr); lia.
+  Qed.
 End Vec.
